@@ -27,11 +27,12 @@ import (
 // chaos is a seeded schedule of writes, link faults, restarts and elections on a real replication group,
 // with the harness in the coordinator's role. Monitors for C03/C04/C06 watch it.
 type chaos struct {
-	prop string
-	r    *core.R
-	rng  *rand.Rand
-	c    *rc.Cluster
-	rf   int
+	clusterLogDivergence string // class of the first divergence found between a replica's log and the leader's
+	prop                 string
+	r                    *core.R
+	rng                  *rand.Rand
+	c                    *rc.Cluster
+	rf                   int
 
 	term     int64
 	curTerm  atomic.Int64 // == term, readable from monitor goroutines
@@ -79,11 +80,12 @@ func (ch *chaos) viol(prop, clause, detail string) {
 // ---- C03: at every ack, the follower's durable log equals the leader's up to the acked offset ----
 
 type ackMonitor struct {
-	ch      *chaos
-	mu      sync.Mutex
-	checked map[int64]int64 // stream id -> highest offset already compared
-	n       atomic.Int64
-	acked   map[string]int64 // "follower@term" -> highest offset acknowledged on a stream of that term
+	ch       *chaos
+	mu       sync.Mutex
+	checked  map[int64]int64 // stream id -> highest offset already compared
+	n        atomic.Int64
+	acked    map[string]int64 // "follower@term" -> highest offset acknowledged on a stream of that term since the node's last restart
+	ackedOld map[string]int64 // the same, before the node's last restart
 }
 
 func (m *ackMonitor) ackedBy(follower string, term int64) (int64, bool) {
@@ -91,6 +93,38 @@ func (m *ackMonitor) ackedBy(follower string, term int64) (int64, bool) {
 	defer m.mu.Unlock()
 	v, ok := m.acked[fmt.Sprintf("%s@%d", follower, term)]
 	return v, ok
+}
+
+// ackedBeforeRestart: what the node had acknowledged in that term before its process last restarted.
+func (m *ackMonitor) ackedBeforeRestart(follower string, term int64) (int64, bool) {
+	m.mu.Lock()
+	defer m.mu.Unlock()
+	v, ok := m.ackedOld[fmt.Sprintf("%s@%d", follower, term)]
+	return v, ok
+}
+
+// noteRestart moves the node's acknowledgements to the "before the restart" side (wiped: they are void).
+func (m *ackMonitor) noteRestart(node string, wiped bool) {
+	m.mu.Lock()
+	defer m.mu.Unlock()
+	if m.ackedOld == nil {
+		m.ackedOld = map[string]int64{}
+	}
+	for k, v := range m.acked {
+		if strings.HasPrefix(k, node+"@") {
+			if !wiped && v > m.ackedOld[k] {
+				m.ackedOld[k] = v
+			}
+			delete(m.acked, k)
+		}
+	}
+	if wiped {
+		for k := range m.ackedOld {
+			if strings.HasPrefix(k, node+"@") {
+				delete(m.ackedOld, k)
+			}
+		}
+	}
 }
 
 func readEntry(w wal.Wal, off int64) (*proto.LogEntry, error) {
@@ -447,6 +481,7 @@ func (ch *chaos) wipe(name string) bool {
 	if err := ch.c.Node(name).Wipe(); err != nil {
 		return false
 	}
+	ch.ackMon.noteRestart(name, true)
 	ch.amnesiac[name] = true
 	delete(ch.attached, name)
 	ch.log("wipe %s", name)
@@ -488,6 +523,7 @@ func (ch *chaos) quiesce() bool {
 	}
 	for _, n := range ch.c.Nodes {
 		if n.Down() {
+			ch.ackMon.noteRestart(n.Name, false)
 			if err := n.Restart(); err != nil {
 				ch.r.Inconclusive("restart failed: " + err.Error())
 				return false
@@ -570,6 +606,9 @@ func (ch *chaos) compareReplicas() {
 				break
 			}
 			if le.Term != fe.Term || string(le.Value) != string(fe.Value) {
+				if ch.clusterLogDivergence == "" {
+					ch.clusterLogDivergence = divergenceClass(lw, le.Term, fe.Term)
+				}
 				ch.viol("C03", "replica-logs-diverge-below-commit/"+divergenceClass(lw, le.Term, fe.Term), fmt.Sprintf("offset %d <= commit %d: leader %s has term %d, %s has term %d", o, ls.CommitOffset, ch.leader, le.Term, n.Name, fe.Term))
 				break
 			}
@@ -679,8 +718,17 @@ func divergenceClass(leaderWal wal.Wal, leaderTerm, followerTerm int64) string {
 // logDivergenceClass classifies why two replicas differ by looking at their logs.
 func (ch *chaos) logDivergenceClass(a, b string, upTo int64) string {
 	wa, wb := ch.c.Node(a).Wal(), ch.c.Node(b).Wal()
+	// when the logs of this pair cannot explain the difference (one of them was restarted by a snapshot, or they
+	// agree by now), a divergence between some replica's log and the leader's found in the same run does: the
+	// state of that replica, or of one rebuilt from it, differs for the same reason
+	fallback := func(cls string) string {
+		if ch.clusterLogDivergence != "" {
+			return ch.clusterLogDivergence
+		}
+		return cls
+	}
 	if wa == nil || wb == nil || wa.LastOffset() < 0 || wb.LastOffset() < 0 {
-		return "logs-not-comparable"
+		return fallback("logs-not-comparable")
 	}
 	from := wa.FirstOffset()
 	if wb.FirstOffset() > from {
@@ -690,7 +738,7 @@ func (ch *chaos) logDivergenceClass(a, b string, upTo int64) string {
 		ea, erra := readEntry(wa, o)
 		eb, errb := readEntry(wb, o)
 		if erra != nil || errb != nil {
-			return "logs-not-comparable"
+			return fallback("logs-not-comparable")
 		}
 		if ea.Term != eb.Term || string(ea.Value) != string(eb.Value) {
 			// name it from the point of view of the replica holding the lower term (the one that follows the elected history)
@@ -714,7 +762,7 @@ func (ch *chaos) logDivergenceClass(a, b string, upTo int64) string {
 		// earlier (its log may have been restarted by a snapshot since): same family as the truncation-point defect
 		return "logs-identical-but-a-replica-was-truncated-earlier"
 	}
-	return "logs-identical"
+	return fallback("logs-identical")
 }
 
 // installApplyMonitor watches every database of the cluster: the offsets applied to one database instance must
